@@ -2,19 +2,20 @@ from . import register
 
 register("C05",
          lean_modules=["GtModel.Model.Lazy", "GtModel.Props.C05"],
-         theorems=["GtModel.C05.no_internal_error_partial", "GtModel.C05.observations_nested_partial",
-                   "GtModel.C05.history_independent_partial", "GtModel.C05.no_internal_error_no_multiset", "GtModel.C05.observations_nested_no_multiset",
-                   "GtModel.C05.history_independent_no_multiset", "GtModel.C05.editDistance_freed_cached",
+         theorems=["GtModel.C05.no_internal_error_every_machine", "GtModel.C05.observations_nested_every_machine",
+                   "GtModel.C05.history_independent_every_machine", "GtModel.C05.editDistance_freed_cached",
                    "GtModel.C05.editDistance_fresh_J", "GtModel.C05.no_internal_error",
                    "GtModel.C05.observations_nested", "GtModel.C05.history_independent",
                    "GtModel.C05.mkEdit_refines_L2", "GtModel.C05.history_independent_L2",
                    "GtModel.C05.observations_contain_L2_cost"],
          streams=["history", "script"],
-         assumptions=["AtomHyp / EditsHyp for the atom class MultiSetEdit (see C04)",
+         assumptions=["oracles as in C04 (every make_distinct oracle, admissible solver answers)",
                       "the L3->L2 link scriptG(mkEdit ...) = edits ... is PROVED for the fragment without MultiSetEdit "
                       "(mkEdit_refines_L2); with MultiSetEdit it is validated by the streams only"],
          trusted=["harness/lazyinst.py"],
-         partial="no_internal_error / observations_nested / history_independent proved with NO hypothesis on the machine "
-                 "(both values of quiet) for from.edits(to) without MultiSetEdit (no DictNode on the from side, distinct "
-                 "keys, to-side in the domain fkOK; outside it: finding D24 / coll-ub); "
-                 "over MultiSetEdit atoms conditional on AtomHyp/EditsHyp")
+         partial="*_every_machine: no_internal_error / observations_nested / history_independent proved with no "
+                 "hypothesis (both values of quiet) for EVERY machine class incl. MultiSetEdit+matcher satisfying the "
+                 "structural invariant; no_internal_error / history_independent(_L2): for the machine of "
+                 "from.edits(to) when there is no DictNode on the from side (distinct keys, to-side in fkOK; outside "
+                 "it: finding D24 / coll-ub), where finishing after any history yields L2's script itself; not "
+                 "proved: the invariant of the fresh MultiSetEdit (mkMs) and its L3->L2 link")
